@@ -217,6 +217,23 @@ func (e *vEnv) broadcast(m ConsensusPayload[vhash]) {
 			}
 		}
 	}
+	if e.want("C09") {
+		lostOrCommitted := d.CountCommitted()+d.CountFailed() > d.F()
+		switch p.typ {
+		case ChangeViewType:
+			// a timeout asks for a view change only while at most F validators are committed or lost
+			if p.reason == CVTimeout || p.reason == CVTxNotFound {
+				vAssert("C09.L1.changeview", !lostOrCommitted)
+			}
+			vAssert("C09.L1.cv.newview", p.newView == d.ViewNumber+1)
+		case RecoveryRequestType:
+			vAssert("C09.L1.recoveryrequest", lostOrCommitted && e.api == apiTimeout || e.api != apiTimeout && e.api != apiNewTransaction)
+		case RecoveryMessageType:
+			if e.api == apiRecoveryRequest || e.api == apiChangeView {
+				vCover("C09.L2.answered")
+			}
+		}
+	}
 	if e.want("C15") && p.typ == PrepareRequestType {
 		vCover("C15.proposal")
 		inc := d.Context.Config.TimestampIncrement
